@@ -107,3 +107,21 @@ func HangExit(r *Result, sigPrefix string, out string) func(string, bool, string
 		os.Exit(0)
 	}
 }
+
+// HangInconclusive is the onHang of workloads whose property is not about deadlocks: the hang is recorded as a
+// note (C08 owns it), the result is written and the child exits with status 5 so that the driver reports the run
+// as not conclusive instead of waiting for its own watchdog.
+func HangInconclusive(r *Result, out string) func(string, bool, string) {
+	return func(desc string, healthy bool, dump string) {
+		r.Inconc(1)
+		r.Note("a library call did not return (canary healthy: %v): %s", healthy, desc)
+		if len(dump) > 30000 {
+			dump = dump[:30000]
+		}
+		r.Note("goroutines: %s", dump)
+		if out != "" {
+			r.Write(out)
+		}
+		os.Exit(5)
+	}
+}
